@@ -18,7 +18,11 @@ META = {
                  "by a MITM tap into live handshakes of two real transports, both roles",
     "text": "Classic DH (group1, group14-sha1/sha256, group16, gex-sha1/sha256) x victim role x peer "
             "value in {0, p, p+1, 2p-1, 2^(bits+8), -1, -p} (+ {p+2, 2p, 3p-1, -2, -(p-1), 2^bits, "
-            "non-minimal zero} thorough) must be rejected, {1, 2, p-2, p-1} counted; ECDH nistp256/384/521 "
+            "non-minimal zero} thorough) must be rejected, {1, 2, p-2, p-1} counted; new dimension 'wire encoding' of "
+            "the peer's e/f (the range is judged on the value the mpint bytes denote per RFC 4251 two's complement, "
+            "decoded by an independent reference): per DH kex x role, modulus-sized bodies with first byte 0x80, 0x81, "
+            "0xff (group1 quick / every DH kex thorough: every first byte 0x80..0xff), 80 00..00, the one-byte 80, "
+            "non-minimal ff ff 80.., 00 00 (zero), 00 00 || p must be rejected, 7f.. and 00 00 7f.. counted; ECDH nistp256/384/521 "
             "x role x {off-curve, infinity, empty, truncated, extended, (0,0), undecompressible compressed "
             "x, other curve's point, bad prefix}; X25519 x role x {14 low-order encodings, lengths "
             "0/31/33, all-zero result from a lenient backend}; client-side gex GROUP prime of 512, 768, 1023, 1024, 2048, 8192, 8193, 16384 bits "
@@ -70,6 +74,40 @@ def dh_values(kex, tier):
                 ("2^bits", 1 << bits), ("zero-nonminimal", "raw:00")]
     ok = [("1", 1), ("2", 2), ("p-2", p - 2), ("p-1", p - 1)]
     return [(n, v, True) for n, v in bad] + [(n, v, False) for n, v in ok]
+
+
+# "wire encoding" dimension: the peer's e / f as raw mpint bodies - what the statement's range refers to is the value
+# the bytes denote per RFC 4251 (two's complement, sign = top bit of the first byte), however they are encoded
+SWEEP_QUICK_KEX = ("diffie-hellman-group1-sha1",)        # every first byte 0x80..0xff (thorough: every DH kex)
+FIRST_BYTES_ALL = tuple(range(0x80, 0x100))
+FIRST_BYTES_EVERY_KEX = (0x80, 0x81, 0xFF)
+
+
+def rfc4251_value(raw):
+    """Reference decoding of an mpint body (RFC 4251 section 5), independent of paramiko."""
+    return int.from_bytes(raw, "big", signed=True) if raw else 0
+
+
+def dh_encodings(kex, tier):
+    """(name, raw mpint body, class, first-byte tag | None) - bodies sized like the group's modulus unless named
+    otherwise.  Filler bytes depend on VERIF_SEED; sign, size class and range membership do not."""
+    p = group_p(kex)
+    n = (p.bit_length() + 7) // 8
+    pb = p.to_bytes(n, "big")
+    tail = core.filler(n - 1, 8100 + n)
+    out = []
+    sweep = FIRST_BYTES_ALL if (tier == "thorough" or kex in SWEEP_QUICK_KEX) else FIRST_BYTES_EVERY_KEX
+    for fb in sweep:
+        out.append(("neg-first-byte-%02x" % fb, bytes([fb]) + tail, "negative", "%02x" % fb))
+    out.append(("neg-minimum-of-size", b"\x80" + b"\x00" * (n - 1), "negative", "80"))
+    out.append(("neg-one-byte-80", b"\x80", "negative", "80"))
+    out.append(("neg-nonminimal-ffff", b"\xff\xff\x80" + tail, "negative-nonminimal", None))
+    out.append(("zero-nonminimal-0000", b"\x00\x00", "zero-nonminimal", None))
+    out.append(("p-nonminimal-0000", b"\x00\x00" + pb, "at-or-above-p-nonminimal", None))
+    # in range whatever the filler (every MODP prime starts with 0xff): no requirement, only counted
+    out.append(("pos-first-byte-7f", b"\x7f" + tail, "in-range", None))
+    out.append(("pos-nonminimal-0000-7f", b"\x00\x00\x7f" + tail, "in-range", None))
+    return out
 
 
 def enc_mpint(v):
@@ -154,6 +192,18 @@ def cases(tier):
             for name, v, must in dh_values(kex, tier):
                 out.append({"kex": kex, "victim": victim, "what": "dh", "name": name,
                             "value": v if isinstance(v, str) else str(v), "must_reject": must})
+    for kex in DH_KEX:
+        p = group_p(kex)
+        for victim in ("server", "client"):
+            for name, raw, kl, fb in dh_encodings(kex, tier):
+                must = not (1 <= rfc4251_value(raw) <= p - 1)
+                if must != (kl != "in-range"):
+                    raise AssertionError("encoding class %s of %s: reference decoding disagrees" % (name, kex))
+                c = {"kex": kex, "victim": victim, "what": "dh-enc", "name": name, "value": raw.hex(),
+                     "klass": kl, "must_reject": must}
+                if fb is not None:
+                    c["first_byte"] = fb
+                out.append(c)
     for kex in EC_KEX:
         for victim in ("server", "client"):
             for name, v, must in ec_values(kex):
@@ -187,6 +237,8 @@ def encode_value(c):
     if c["what"] == "dh":
         v = c["value"]
         return enc_mpint(v if v.startswith("raw:") else int(v))
+    if c["what"] == "dh-enc":
+        return X.sstr(bytes.fromhex(c["value"]))
     if c["what"] == "gex-group":
         return X.mpint(gex_prime(int(c["value"])))
     return X.sstr(bytes.fromhex(c["value"]))
@@ -286,6 +338,8 @@ def run_case(c):
 
 def klass(c):
     n = c["name"]
+    if c["what"] == "dh-enc":
+        return c["klass"] + ("|first-byte=" + c["first_byte"] if c.get("first_byte") else "")
     if c["what"] == "dh":
         if n.startswith("zero"):
             return "zero"
@@ -339,24 +393,53 @@ def work(chunk, acc):
         else:
             # no requirement; record whether the value got past the validity check
             acc.count("in_range_%s" % ("proceeded" if proceeded else "stopped_for_other_reason"))
-            if not proceeded and c["what"] in ("dh", "gex-group"):
+            if not proceeded and c["what"] in ("dh", "dh-enc", "gex-group"):
                 # an in-range value that is refused would be a harness misunderstanding worth a note
                 acc.note("in-range value refused: %s %s %s (%r)" % (c["kex"], c["victim"], c["name"],
                                                                    v["victim_exc"]))
+
+
+def fold_first_bytes(acc):
+    """Negative wire encodings are reported per first byte ("key|first-byte=xx").  All 128 first bytes failing ->
+    the bare key; otherwise the failing first bytes are named (a contiguous run as lo..hi)."""
+    groups, rest = {}, []
+    for v in acc.violations:
+        if "|first-byte=" in v["key"]:
+            base, fb = v["key"].split("|first-byte=")
+            groups.setdefault(base, []).append((int(fb, 16), v))
+        else:
+            rest.append(v)
+    for base in sorted(groups):
+        fbs = sorted(set(f for f, _ in groups[base]))
+        vs = [v for _, v in sorted(groups[base], key=lambda fv: fv[0])]
+        if fbs == list(FIRST_BYTES_ALL):
+            key = base
+        elif len(fbs) > 2 and fbs == list(range(fbs[0], fbs[-1] + 1)):
+            key = "%s:first-byte=%02x..%02x" % (base, fbs[0], fbs[-1])
+        else:
+            key = "%s:first-byte=%s" % (base, "+".join("%02x" % f for f in fbs))
+        rep = dict(vs[0])
+        rep["key"] = key
+        rep["count"] = sum(v["count"] for v in vs)
+        rest.append(rep)
+    acc.violations = rest
 
 
 def main(tier):
     ck = core.Check(
         PID, tier, "exploration",
         "one evaluation = one live handshake with one substituted peer value; nontrivial = distinct "
-        "(kex, victim role, kind, value name) of values that must be rejected and that were really "
-        "placed on the wire in front of the victim",
+        "(kex, victim role, kind, value name [wire-encoding cases: encoding name incl. first byte]) of values that "
+        "must be rejected and that were really placed on the wire in front of the victim",
         ["victim must abort: no _set_K_H, no NEWKEYS sent, transport inactive (client: start_client "
          "raises); exception class not judged",
          "gex victim-server cases use the 2048-bit group of the moduli fixture; non-prime moduli of the "
          "requested bit size stand in for primes where no RFC group exists (the client does no "
          "primality test)",
-         "in-range values {1, 2, p-2, p-1} carry no requirement (DESIGN section 7)"])
+         "in-range values {1, 2, p-2, p-1} carry no requirement (DESIGN section 7)",
+         "wire-encoding cases: 'the peer value' is what the mpint bytes denote per RFC 4251 section 5 (two's "
+         "complement, top bit of the first byte = sign; reference decoding int.from_bytes(signed=True)); non-minimal "
+         "encodings of in-range values carry no requirement"])
     cs = cases(tier)
     cs.sort(key=lambda c: -cost(c))
     items = []
@@ -370,6 +453,7 @@ def main(tier):
     if cur:
         items.append(cur)
     ck.merge(core.pmap(items, work))
+    fold_first_bytes(ck.acc)
     ck.extra["cases"] = len(cs)
     return ck.finish()
 
